@@ -9,7 +9,7 @@ import os
 import re
 import sys
 
-COMPS = "abc"
+COMPS = "abe"          # `e` renders NO visible output (a JS/CSS-only component): its scripts and styles are still part of the page
 
 
 def worker(job):
@@ -21,7 +21,8 @@ def worker(job):
     from django.template import Context, Template
     from django_components import Component, registry, render_dependencies
     for c in COMPS:
-        attrs = {"template": "{% load component_tags %}<" + c + ">{% slot 's' default / %}</" + c + ">", "js": f"console.log('js-{c}');", "css": f".css-{c} {{ color: red; }}",
+        tpl = "{% load component_tags %}{% if nothing %}x{% endif %}  \n" if c == "e" else "{% load component_tags %}<" + c + ">{% slot 's' default / %}</" + c + ">"
+        attrs = {"template": tpl, "js": f"console.log('js-{c}');", "css": f".css-{c} {{ color: red; }}",
                  "Media": type("Media", (), {"js": [f"media-{c}.js"], "css": [f"media-{c}.css"]})}
         registry.register(c, type("Dep" + c.upper(), (Component,), attrs))
     n, fails = 0, []
@@ -32,7 +33,9 @@ def worker(job):
         def emit(u):
             nonlocal body
             if isinstance(u, tuple):      # (outer, inner): inner rendered in outer's slot
-                order.append(u[0]); order.append(u[1])
+                order.append(u[0])
+                if u[0] != "e":             # (`e` has no slot: what is written in its body is never rendered)
+                    order.append(u[1])
                 return "{% component '" + u[0] + "' %}{% component '" + u[1] + "' / %}{% endcomponent %}"
             order.append(u)
             return "{% component '" + u + "' / %}"
@@ -74,7 +77,7 @@ def run(repo, maxuses=3, procs=8):
     ctx = mp.get_context("spawn")
     with ctx.Pool(procs) as pool:
         res = pool.map(worker, [(repo, pages[k::procs]) for k in range(procs)])
-    return {"space": f"all {len(pages)} pages with <= {maxuses} component uses over 3 component classes (plain or nested through a slot; from the third use on plain only) x 4 placeholder layouts, document mode",
+    return {"space": f"all {len(pages)} pages with <= {maxuses} component uses over 3 component classes - one of them renders no visible output - (plain or nested through a slot; from the third use on plain only) x 4 placeholder layouts, document mode",
             "evaluations": sum(r["n"] for r in res), "failures": [f for r in res for f in r["fails"]][:8], "exhaustive": True}
 
 
